@@ -1,4 +1,72 @@
-(* placeholder until proofs land *)
-From PV Require Import Model.Timeline.
-Theorem C06_placeholder : True. Proof. exact I. Qed.
-Print Assumptions C06_placeholder.
+(* C06  gaps, extrude and covers implement complement and difference exactly.
+   Exact cell-level statements at eps = 0 (DESIGN 2.2/2.3): [covers_cell l k] says the
+   unit cell [k, k+1] is covered by a member of l; [canonical] = strictly increasing,
+   non-abutting, positive-length segments. Statements only. *)
+From PV Require Import Model.Timeline Proofs.SortedP Proofs.SupportP Proofs.CropP Proofs.GapsP.
+
+Section C06.
+Variable t : list seg.
+Hypothesis Ht : wf 0 t.
+Variable S : sup.               (* a Segment or a Timeline *)
+Hypothesis HS : sup_wf S.
+
+(* gaps(S) is the canonical decomposition of the part of S the timeline does not cover *)
+Theorem C06_gaps_cells : forall k,
+  covers_cell (gaps 0 t (Some S)) k <-> (covers_cell (sup_list S) k /\ ~ covers_cell t k).
+Proof. exact (gaps_cells t Ht S HS). Qed.
+Theorem C06_gaps_canonical : canonical (gaps 0 t (Some S)).
+Proof. exact (gaps_canonical t Ht S HS). Qed.
+(* the default support is the extent *)
+Theorem C06_gaps_default_support : gaps 0 t None = gaps 0 t (Some (SupSeg (extent_l t))).
+Proof. reflexivity. Qed.
+
+(* crop(S) and gaps(S) partition S *)
+Theorem C06_crop_gaps_partition : forall k,
+  (covers_cell (sup_list S) k <->
+     covers_cell (crop 0 t S Inter) k \/ covers_cell (gaps 0 t (Some S)) k) /\
+  ~ (covers_cell (crop 0 t S Inter) k /\ covers_cell (gaps 0 t (Some S)) k).
+Proof. exact (crop_gaps_partition t Ht S HS). Qed.
+
+(* taking gaps twice within S gives back the cropped support *)
+Theorem C06_gaps_twice : gaps 0 (gaps 0 t (Some S)) (Some S) = support 0 0 (crop 0 t S Inter).
+Proof. exact (gaps_gaps t S Ht HS). Qed.
+
+(* extrude(R): complement of crop *)
+Theorem C06_extrude_intersection : forall k,
+  covers_cell (extrude 0 t S Inter) k <-> (covers_cell t k /\ ~ covers_cell (sup_list S) k).
+Proof. exact (extrude_intersection_cells t Ht S HS). Qed.
+Theorem C06_extrude_loose : forall x,
+  In x (extrude 0 t S Loose) <->
+  (In x t /\ forall k, st x <= k < en x -> ~ covers_cell (sup_list S) k).
+Proof. exact (extrude_loose_spec t Ht S HS). Qed.
+Theorem C06_extrude_strict : forall x,
+  In x (extrude 0 t S Strict) <->
+  (In x t /\ exists k, st x <= k < en x /\ ~ covers_cell (sup_list S) k).
+Proof. exact (extrude_strict_spec t Ht S HS). Qed.
+
+(* covers(other): no time point of other lies outside the timeline *)
+Variable o : list seg.
+Hypothesis Ho : wf 0 o.
+Theorem C06_covers : covers 0 t o = true <-> forall k, covers_cell o k -> covers_cell t k.
+Proof. exact (covers_spec t o Ht Ho). Qed.
+End C06.
+
+Example C06_nonvacuous :
+  wf 0 [(0,2); (1,2); (3,5)] /\
+  gaps 0 [(0,2); (1,2); (3,5)] (Some (SupSeg (-1,7))) = [(-1,0); (2,3); (5,7)] /\
+  extrude 0 [(0,2); (1,2); (3,5)] (SupSeg (1,2)) Inter = [(0,1); (3,5)] /\
+  extrude 0 [(0,2); (1,2); (3,5)] (SupSeg (1,3)) Loose = [(3,5)] /\
+  extrude 0 [(0,2); (1,2); (3,5)] (SupSeg (1,3)) Strict = [(0,2); (3,5)] /\
+  covers 0 [(0,2); (1,2); (3,5)] [(1,2); (4,5)] = true /\
+  covers 0 [(0,2); (1,2); (3,5)] [(1,4)] = false.
+Proof. split; [split; repeat constructor | vm_compute; repeat split]. Qed.
+
+Print Assumptions C06_gaps_cells.
+Print Assumptions C06_gaps_canonical.
+Print Assumptions C06_gaps_default_support.
+Print Assumptions C06_crop_gaps_partition.
+Print Assumptions C06_gaps_twice.
+Print Assumptions C06_extrude_intersection.
+Print Assumptions C06_extrude_loose.
+Print Assumptions C06_extrude_strict.
+Print Assumptions C06_covers.
